@@ -149,6 +149,23 @@ func runReuse(kind string, t1 int, b1 []byte, t2 int, b2 []byte, src2 string) st
 	})
 }
 
+// runSeq2: two Next calls on one BytesSkipDecoder without Reset
+func runSeq2(t1, t2 int, b []byte) string {
+	return lib.Guard(func() string {
+		d := thrift.NewBytesSkipDecoder(b)
+		one := func(t int, left int) (string, int) {
+			got, err := d.Next(thrift.TType(int8(t)))
+			if err != nil {
+				return "err " + lib.ErrStr(err), left
+			}
+			return fmt.Sprintf("ok %s %d", lib.Hex(got), left-len(got)), left - len(got)
+		}
+		r1, left := one(t1, len(b))
+		r2, _ := one(t2, left)
+		return r1 + " | " + r2
+	})
+}
+
 func emitReuse(r *lib.Rng, t1 int, b1 []byte, t2 int, b2 []byte) {
 	if lib.MaxRequest(t1, b1) > allocCap || lib.MaxRequest(t2, b2) > allocCap {
 		return
@@ -411,6 +428,12 @@ func genCases(o *lib.Opts) {
 				first = b
 			}
 			emitReuse(r, t, first, t2, b2)
+			// two Next calls on one bytes decoder: first on a value or a cut of it, then the next type
+			seq := append(append([]byte(nil), first...), b2...)
+			if lib.MaxRequest(t, seq) <= allocCap {
+				em.Count("reuse:seq2")
+				em.Line(runSeq2(t, t2, seq), "skipseq2", strconv.Itoa(t), strconv.Itoa(t2), lib.Hex(seq))
+			}
 		}
 		// splice two values
 		if i%5 == 0 && len(v) > 2 {
@@ -458,6 +481,12 @@ func replay(lines [][]string) {
 	r := lib.NewRng(1)
 	_ = r
 	for _, f := range lines {
+		if len(f) == 4 && f[0] == "skipseq2" {
+			t1, _ := strconv.Atoi(f[1])
+			t2, _ := strconv.Atoi(f[2])
+			em.Line(runSeq2(t1, t2, lib.UnHex(f[3])), f...)
+			continue
+		}
 		if len(f) == 7 && f[0] == "skipreuse" {
 			t1, _ := strconv.Atoi(f[2])
 			t2, _ := strconv.Atoi(f[4])
